@@ -61,10 +61,11 @@ variable {Db Ans κ : Type} [DecidableEq κ]
 
 /-! ### The key: which requests it identifies -/
 
-/-- The identification `≈` on option values that the JSON text makes: same rendering, or both "empty" in
-    the sense of `omitempty` (0, false, ±0.0, "", nil / empty slice or map). -/
+/-- The identification `≈` on option values that the key text makes: same JSON rendering, or both "empty" in
+    the sense of `omitempty` (0, false, ±0.0, "", nil / empty slice or map), or -- in the Go-syntax text used
+    when a NaN / Inf is present -- equal up to the payload and sign of NaNs. -/
 def Equiv (utf8 : Bytes → Bytes) (v v' : Val) : Prop :=
-  v.json utf8 = v'.json utf8 ∨ (v.isEmpty = true ∧ v'.isEmpty = true)
+  v.json utf8 = v'.json utf8 ∨ (v.isEmpty = true ∧ v'.isEmpty = true) ∨ v.goView = v'.goView
 
 /-- The engine's answer depends on the options only through the fields in `reads`, up to `≈`.
     (Justified outside Lean: `reads` is the regenerated set of `options.X` selectors under SearchUniversal, and
@@ -87,7 +88,7 @@ theorem jsonView_equiv {utf8 : Bytes → Bytes} {b : Bool} {v v' : Val}
   by_cases h1 : (b && v.isEmpty) = true
   · by_cases h2 : (b && v'.isEmpty) = true
     · simp only [Bool.and_eq_true] at h1 h2
-      exact .inr ⟨h1.2, h2.2⟩
+      exact .inr (.inl ⟨h1.2, h2.2⟩)
     · simp [h1, h2] at h
   · by_cases h2 : (b && v'.isEmpty) = true
     · simp [h1, h2] at h
@@ -108,24 +109,41 @@ theorem proj_sound {utf8 : Bytes → Bytes} {sh : Shape} {reads : List String} (
   simp only [Prod.mk.injEq, true_and, fieldVal, hl] at h'
   exact jsonView_equiv h'
 
-theorem keyOf_hashed {E : Env Db Ans κ} {sh : Shape} {q q' : Query} {o o' : Opts}
-    (hfin : marshalOK sh o = true) (h : keyOf E sh q o = keyOf E sh q' o') :
-    E.normQ q = E.normQ q' ∧ proj E.utf8 sh o = proj E.utf8 sh o' := by
-  unfold keyOf at h
-  simp only [hfin, ↓reduceIte] at h
-  split at h
-  · injection h with h1 h2
-    exact ⟨h1, h2⟩
-  · cases h
+theorem goProj_sound {sh : Shape} {reads : List String} (hc : covers sh reads = true) (utf8 : Bytes → Bytes)
+    {o o' : Opts} (h : goProj sh o = goProj sh o') : ∀ f ∈ reads, Equiv utf8 (o f) (o' f) := by
+  intro f hf
+  unfold covers at hc
+  rw [List.all_eq_true] at hc
+  have := hc f hf
+  rw [List.any_eq_true] at this
+  obtain ⟨kf, hkf, hl⟩ := this
+  have hl : sh.site.lookup kf.1 = some f := by simpa using hl
+  unfold goProj at h
+  have h' := (List.map_inj_left.mp h) kf hkf
+  simp only [Prod.mk.injEq, true_and, fieldVal, hl] at h'
+  exact .inr (.inr h')
 
-/-- Requests with the same (non-fallback) key have the same answer. -/
+/-- equal keys: equal normalised queries, and option records that agree on every read field up to `≈` -/
+theorem keyOf_eq {E : Env Db Ans κ} {sh : Shape} {reads : List String} (hc : covers sh reads = true)
+    {q q' : Query} {o o' : Opts} (h : keyOf E sh q o = keyOf E sh q' o') :
+    E.normQ q = E.normQ q' ∧ ∀ f ∈ reads, Equiv E.utf8 (o f) (o' f) := by
+  unfold keyOf at h
+  split at h <;> split at h
+  · injection h with h1 h2
+    exact ⟨h1, proj_sound hc h2⟩
+  · cases h
+  · cases h
+  · injection h with h1 h2
+    exact ⟨h1, goProj_sound hc E.utf8 h2⟩
+
+/-- Requests with the same key have the same answer. -/
 theorem key_sound {E : Env Db Ans κ} {sh : Shape} {reads : List String}
     (hc : covers sh reads = true) (hr : EngineReadsOnly E reads) (hn : EngineNormalises E)
-    {q q' : Query} {o o' : Opts} (hfin : marshalOK sh o = true)
+    {q q' : Query} {o o' : Opts}
     (h : keyOf E sh q o = keyOf E sh q' o') (db : Db) : E.answer db q o = E.answer db q' o' := by
-  obtain ⟨h1, h2⟩ := keyOf_hashed hfin h
+  obtain ⟨h1, h2⟩ := keyOf_eq hc h
   rw [hn db q o, h1, ← hn db q' o]
-  exact hr db q' o o' (proj_sound hc h2)
+  exact hr db q' o o' h2
 
 /-! ### The invariant -/
 
@@ -180,7 +198,7 @@ theorem scPut_inv {E : Env Db Ans κ} {sh : Shape} {s : State κ Db Ans} (h : In
 theorem search_frame (E : Env Db Ans κ) (sh : Shape) (s : State κ Db Ans) (q : Query) (o : Opts) :
     (search E sh s q o).1.db = s.db ∧ (search E sh s q o).1.mgrEnabled = s.mgrEnabled ∧
     (search E sh s q o).1.cacheEnabled = s.cacheEnabled ∧ (search E sh s q o).1.now = s.now := by
-  unfold search
+  unfold search searchK
   split
   · exact ⟨rfl, rfl, rfl, rfl⟩
   · have hg := scGet_frame s (E.enc (keyOf E sh q o))
@@ -195,7 +213,7 @@ theorem search_frame (E : Env Db Ans κ) (sh : Shape) (s : State κ Db Ans) (q :
 
 theorem search_inv {E : Env Db Ans κ} {sh : Shape} {s : State κ Db Ans} (h : Inv E sh s) (q : Query) (o : Opts) :
     Inv E sh (search E sh s q o).1 := by
-  unfold search
+  unfold search searchK
   split
   · exact h
   · have hg := scGet_inv h (E.enc (keyOf E sh q o))
@@ -206,14 +224,13 @@ theorem search_inv {E : Env Db Ans κ} {sh : Shape} {s : State κ Db Ans} (h : I
       · exact hg
       · exact scPut_inv hg q o
 
-/-- What a search returns: the engine's answer on the current database, whenever the key is a proper
-    (hashed) one. -/
+/-- What a search returns: the engine's answer on the current database. -/
 theorem search_spec {E : Env Db Ans κ} {sh : Shape} {reads : List String}
     (hinj : ∀ a b, E.enc a = E.enc b → a = b)
     (hc : covers sh reads = true) (hr : EngineReadsOnly E reads) (hn : EngineNormalises E)
-    {s : State κ Db Ans} (h : Inv E sh s) (q : Query) (o : Opts) (hfin : marshalOK sh o = true) :
+    {s : State κ Db Ans} (h : Inv E sh s) (q : Query) (o : Opts) :
     (search E sh s q o).2 = E.answer s.db q o := by
-  unfold search
+  unfold search searchK
   split
   · rfl
   · simp only
@@ -221,7 +238,7 @@ theorem search_spec {E : Env Db Ans κ} {sh : Shape} {reads : List String}
     · rename_i v hv
       obtain ⟨q', o', hk, hval⟩ := scGet_some h hv
       rw [hval]
-      exact (key_sound hc hr hn hfin (hinj _ _ hk) s.db).symm
+      exact (key_sound hc hr hn (hinj _ _ hk) s.db).symm
     · rw [(scGet_frame s _).1]
 
 theorem monitoredSearch_frame (E : Env Db Ans κ) (shC shM : Shape) (s : State κ Db Ans) (q : Query) (o : Opts) :
@@ -239,10 +256,10 @@ theorem monitoredSearch_inv {E : Env Db Ans κ} {shC shM : Shape} {s : State κ 
 theorem monitoredSearch_spec {E : Env Db Ans κ} {shC shM : Shape} {reads : List String}
     (hinj : ∀ a b, E.enc a = E.enc b → a = b)
     (hc : covers shC reads = true) (hr : EngineReadsOnly E reads) (hn : EngineNormalises E)
-    {s : State κ Db Ans} (h : Inv E shC s) (q : Query) (o : Opts) (hfin : marshalOK shC o = true) :
+    {s : State κ Db Ans} (h : Inv E shC s) (q : Query) (o : Opts) :
     (monitoredSearch E shC shM s q o).2 = E.answer s.db q o := by
   unfold monitoredSearch
-  rw [search_spec hinj hc hr hn (scGet_inv h _) q o hfin, (scGet_frame s _).1]
+  rw [search_spec hinj hc hr hn (scGet_inv h _) q o, (scGet_frame s _).1]
 
 theorem step_inv {E : Env Db Ans κ} {shC shM : Shape} {s : State κ Db Ans} (h : Inv E shC s) (op : Op Db) :
     Inv E shC (step E shC shM s op).1 := by
@@ -338,6 +355,26 @@ theorem run_out (E : Env Db Ans κ) (shC shM : Shape) (s : State κ Db Ans) (his
       simp only [List.getElem?_cons_succ] at h
       have := ih (s := (step E shC shM s a).1) j h
       simpa [run, final] using this
+
+/-- the Go-syntax view determines emptiness (it only rewrites NaN bit patterns, and no NaN is ±0.0) -/
+theorem isEmpty_of_goView {v v' : Val} (h : v.goView = v'.goView) : v.isEmpty = v'.isEmpty := by
+  have key : ∀ w : Val, w.goView.isEmpty = w.isEmpty := by
+    intro w
+    cases w with
+    | int i => rfl
+    | bool b => rfl
+    | float b =>
+      simp only [Val.goView, Val.isEmpty, canonNaN]
+      split
+      · rename_i hn
+        have h0 : b ≠ 0 := by intro h; subst h; revert hn; decide
+        have h1 : b ≠ 2 ^ 63 := by intro h; subst h; revert hn; decide
+        simp [h0, h1]
+      · rfl
+    | str s => rfl
+    | strs l => rfl
+    | boosts m => cases m <;> simp [Val.goView, Val.isEmpty]
+  rw [← key v, ← key v', h]
 
 theorem Val.json_id (v : Val) : v.json id = v := by
   cases v with
